@@ -437,6 +437,7 @@ type Num struct {
 	// Route: "parse" (cty.ParseNumberVal(Text)), "int" (NumberIntVal),
 	// "uint" (NumberUIntVal), "float" (NumberFloatVal(strconv.ParseFloat(Text))),
 	// "big" (NumberVal(big.Float of precision Prec parsed from Text)),
+	// "pow2" (NumberVal of m * 2^e exactly, Text "m:e", precision Prec or 53),
 	// "+inf", "-inf", "zero" (cty.Zero), "negzero" (NumberFloatVal(-0.0)).
 	Route string `json:"route"`
 	Text  string `json:"text,omitempty"`
@@ -481,6 +482,19 @@ func (n Num) Float() *big.Float {
 			panic("spec: bad big number " + n.Text)
 		}
 		return f
+	case "pow2":
+		// Text "m:e" = m * 2^e exactly, held at precision Prec (default 53):
+		// numbers of few significant bits at exponents a float64 cannot hold
+		var m int64
+		var e int
+		if _, err := fmt.Sscanf(n.Text, "%d:%d", &m, &e); err != nil {
+			panic("spec: bad pow2 number " + n.Text)
+		}
+		p := n.Prec
+		if p == 0 {
+			p = 53
+		}
+		return new(big.Float).SetPrec(p).SetMantExp(new(big.Float).SetPrec(p).SetInt64(m), e)
 	case "+inf":
 		return new(big.Float).SetInf(false)
 	case "-inf":
@@ -507,7 +521,7 @@ func (n Num) Cty() cty.Value {
 	case "float":
 		f, _ := strconv.ParseFloat(n.Text, 64)
 		return cty.NumberFloatVal(f)
-	case "big":
+	case "big", "pow2":
 		return cty.NumberVal(n.Float())
 	case "+inf":
 		return cty.PositiveInfinity
